@@ -653,6 +653,7 @@ class C12(PropCheck):
                         bits = int(np.log2(H + 1))
                         casts.append([dt, float(2 ** max(bits - 6, 0)), float((H + 1) // 2 if L == 0 else 0)])
                         for j in range(c0, c0 + max(w, 1)):
+                            case['sd'][j] = max(case['sd'][j], 1.0)      # the rounded integers must vary
                             if 'unit_exp' in case:
                                 case['unit_exp'][j] = 0
                     c0 += max(w, 1)
@@ -918,6 +919,16 @@ class C12(PropCheck):
         ops, obs, problems, info = [], [], [], dict(rejected_rows=0, empty_batches=0, rows=0, thr_rounds=0)
         pending_masks = []        # (index into ops, rows of the round, thresholds) - masks are filled in after the round
 
+        def degenerate(rows):
+            """a column of the round's summaries (integer-cast summaries are coarse) has no variance: scale 0,
+            infinite weights - outside the statement; the driver stops here (a later threshold round on the
+            resulting NaN distances would never accept a row) and the case is skipped as a degenerate round"""
+            return bool(np.any(summ_rows(rows).var(axis=0) == 0))
+
+        def degenerate_result(rows):
+            return dict(obs=[['skip'], ['skip']], ops=[['batch', summaries_of(rows), [True] * len(rows)], ['update']],
+                        observed=observed, problems=[], info=info)
+
         def close_round(batch_idx, rows, thr):
             """acceptance mask of every batch of a finished round: the distances that existed during the round
             (unchanged by the update) against the round's thresholds"""
@@ -993,6 +1004,8 @@ class C12(PropCheck):
                 if len(rows) != rej.state['n_sim'] or len(log) != rej.state['n_batches']:
                     problems.append('round %d: the simulator produced %d rows in %d batches, the sampler counts n_sim=%d in %d batches'
                                     % (k, len(rows), len(log), rej.state['n_sim'], rej.state['n_batches']))
+                if degenerate(rows):
+                    return degenerate_result(rows)
                 ops.append(['update'])
                 obs.append(self.node_obs_update(ad))
                 close_round(batch_idx, rows, thr)
@@ -1031,6 +1044,9 @@ class C12(PropCheck):
                 if len(ad.state['w']) != nw:
                     # this batch finished a population: update_distance has run and a new round has started
                     nw = len(ad.state['w'])
+                    if degenerate(np.vstack(chunk)):
+                        smc.batches.cancel_pending()
+                        return degenerate_result(np.vstack(chunk))
                     obs.append(['skip'])
                     round_done()
                     ops.append(['init'])
